@@ -1,0 +1,8 @@
+//go:build !verif
+
+package storage
+
+// gate is a no-op unless the package is built with the "verif" build tag.
+func gate(op string, key string) error {
+	return nil
+}
